@@ -163,8 +163,34 @@ def firstValue : Option (List Op) → Option J
   | some (.add _ v :: _) => some v
   | _ => none
 
-/-- `resolve_action(base, decision)` -/
-def resolveAction (base : J) (d : Decision) : Except Err (List Op) :=
+/-- `_pop_path` on one diff: `none` = not poppable; `some none` = empty/absent diff -/
+def popDiff (d : Option (List Op)) : Option (Option (PKey × List Op)) :=
+  match d with
+  | none => some none
+  | some [] => some none
+  | some [.patchK k dd] => some (some (.s k, dd))
+  | some [.patchI i dd] => some (some (.i i, dd))
+  | some _ => none
+
+/-- `pop_patch_decision`: all present diffs are single patch entries with the same key -/
+def popDecision (d : Decision) : Option (PKey × Decision) :=
+  let diffs := if d.action == "custom" then [d.localDiff, d.remoteDiff, d.customDiff] else [d.localDiff, d.remoteDiff]
+  match diffs.mapM popDiff with
+  | none => none
+  | some popped =>
+    match popped.filterMap id with
+    | [] => none
+    | (k, _) :: rest =>
+        if rest.all (fun p => p.1 == k) then
+          let get := fun (x : Option (List Op)) => match popDiff x with
+            | some (some (_, dd)) => some dd
+            | _ => none
+          some (k, { d with path := d.path ++ [k], localDiff := get d.localDiff, remoteDiff := get d.remoteDiff,
+                            customDiff := if d.action == "custom" then get d.customDiff else d.customDiff })
+        else none
+
+/-- `resolve_action` for a decision taken at its own level (no pushed-up key-based action) -/
+def resolveLeaf (base : J) (d : Decision) : Except Err (List Op) :=
   let need := fun (x : Option (List Op)) => match x with
     | some v => Except.ok v
     | none => Except.error (Err.typeErr "diff is None")
@@ -210,6 +236,23 @@ def resolveAction (base : J) (d : Decision) : Except Err (List Op) :=
           if b == m then pure [] else pure [.replace k (.int m)]
       | _, _, _, _ => throw (.typeErr "take_max on non-integers is not modelled")
   | _ => .error (.runtime "NotImplementedError: action is not defined")
+
+
+def Decision.keyBased (d : Decision) : Bool :=
+  d.action == "clear" || d.action == "remove" || d.action == "take_max"
+
+/-- `resolve_action(base, decision)`; fuel bounds the descent through pushed-up decisions -/
+def resolveActionF : Nat → J → Decision → Except Err (List Op)
+  | 0, _, _ => .error .fuel
+  | fuel + 1, base, d =>
+  match (if d.keyBased then popDecision d else none) with
+  | some (k, popped) => do
+      let sub ← getKey base k
+      let subdiff ← resolveActionF fuel sub popped
+      pure (if subdiff.isEmpty then [] else [opPatchKey k subdiff])
+  | none => resolveLeaf base d
+
+def resolveAction (base : J) (d : Decision) : Except Err (List Op) := resolveActionF 32 base d
 
 structure Group where
   path : List PKey
